@@ -10,6 +10,15 @@ Correspondence (real library on a scratch directory):
   * the columns handed to pyarrow by read_parquet (recorded) = Model/ParquetCols.v read_columns
   * dtype names: pandas' registry lookup / str(dtype) = Model/ParquetCols.v parse_dtype / dtype_to_string
   * dask.utils.natural_sort_key = Model/NatSort.v
+  * round 4: index / column NAMES that look reserved ('index', 'level_0', '', 'None', dunder spellings that
+    are not the placeholders, 'hilbert_distance' as an ordinary column, frame attribute names, non-ASCII);
+    the index name read back = Model/ParquetCols.v restore_index_name (inside Coq); non-geometry columns
+    and indexes of 30 / 17 other dtype families (datetime64[ns] with sub-microsecond digits, tz-aware, us /
+    ms, timedelta, bool, every integer width at its extremes, float16/32/64 specials, nullable, str with
+    missing, categorical, period) compared exactly (integers, nanoseconds, binary64 bit patterns);
+    pathlib.Path arguments, build_sindex=True, geometry=, bounds= selecting no partition, datasets without
+    spatialpandas metadata (Dask's own writer, pandas part files), load_divisions=True over one / two packed
+    datasets (against the single reads), arrow -> array constructors (accept / reject), refusals.
 pyarrow's byte-level write/read fidelity is validated differentially by these round trips, not proved.
 """
 import itertools
@@ -550,7 +559,8 @@ def none_selected(rep, acc, cfg, meta, arg, frame, projs, rng):
         else:
             for c in exp_cols:
                 e, g = frame[c].dtype, got[c].dtype
-                if U.dtype_token(e) != U.dtype_token(g) and not (
+                # (the categories of a categorical are data: an empty frame need not know them)
+                if str(e) != str(g) and not (
                         str(e) in ('object', 'str', 'string') and 'str' in str(g).lower()):
                     rep.violation('dtype:dask' if isinstance(e, GeometryDtype) else 'payload-dtype:dask',
                                   f'empty selection: column {c} has dtype {g}, written {e}', {**m, 'column': c})
@@ -726,6 +736,38 @@ def packed_divisions(rep, acc, sc, cfg):
             if list(r.divisions) != want:
                 rep.violation('divisions:dask', f'divisions {list(r.divisions)} differ from those of the single reads {want}', m)
             compare_frames(rep, acc, exp, got, None, m, 'GeoDataFrame')
+
+
+def refusals(rep, sc):
+    """calls that cannot be a round trip are refused with the documented exception class instead of
+    writing / returning something: an empty list of paths, a path that does not exist (str and
+    pathlib.Path), to_parquet_dask on a frame that is not a DaskGeoDataFrame"""
+    from pathlib import Path
+    from spatialpandas import GeoDataFrame
+    from spatialpandas.geometry import PointArray
+    from spatialpandas.io import read_parquet_dask, to_parquet_dask
+    missing = os.path.join(sc.dir, 'no_such_dataset')
+    plain = GeoDataFrame({'g': PointArray([[0, 0], [1, 2]]), 'v': [1, 2]})
+    out = os.path.join(sc.dir, 'refused_out')
+    calls = [('read_parquet_dask([])', lambda: read_parquet_dask([]), ValueError),
+             ('read_parquet_dask(<missing str>)', lambda: read_parquet_dask(missing), FileNotFoundError),
+             ('read_parquet_dask(<missing Path>)', lambda: read_parquet_dask(Path(missing)), FileNotFoundError),
+             ('read_parquet_dask([<missing>])', lambda: read_parquet_dask([missing]), FileNotFoundError),
+             ('to_parquet_dask(<GeoDataFrame>)', lambda: to_parquet_dask(plain, out), TypeError)]
+    for what, call, want in calls:
+        m = {'stream': 'refusals', 'call': what}
+        try:
+            r = call()
+            got = 'returned ' + type(r).__name__
+        except Exception as e:
+            got = type(e)
+        rep.evaluations += 1
+        rep.count('refusal:' + (got.__name__ if isinstance(got, type) else 'none'))
+        if not (isinstance(got, type) and issubclass(got, want)):
+            rep.violation('refusal-differs', f'{what}: {got if isinstance(got, str) else "raised " + got.__name__}, '
+                                             f'expected {want.__name__}', m)
+    if os.path.exists(out):
+        rep.violation('refusal-differs', 'to_parquet_dask(<GeoDataFrame>) left files behind', {'stream': 'refusals'})
 
 
 def ctor_stream(rep, n):
@@ -1183,7 +1225,18 @@ def run(rep):
                 'trip with a distinct (configuration, projection) is non-trivial.  Also: 1-partition datasets and single '
                 'part files (exactly one piece) with decreasing / shuffled / non-unique unsorted indexes; histories that '
                 'reuse a path (overwrite with more, then fewer partitions; pack_partitions_to_parquet(overwrite=True)) '
-                'and a glob pattern (dataset added / rewritten between two reads) within the process')
+                'and a glob pattern (dataset added / rewritten between two reads) within the process.  Round 4: every '
+                'second frame carries an index name out of ' + str(len(U.RESERVED_NAMES)) + ' reserved-looking names '
+                '(index, level_0, empty / blank, None / nan spellings, dunder spellings that are not the placeholders, '
+                'frame attribute names, separators, non-ASCII), every fifth has payload / geometry columns renamed to such '
+                'names, a non-index column named hilbert_distance / index / level_0 is requested by name on both paths; '
+                'every frame carries two extra non-geometry columns out of ' + str(len(U.COL_DTYPES)) + ' dtype families and '
+                'every fourth a typed index out of ' + str(len(U.INDEX_DTYPES)) + ' (datetime64[ns] with sub-microsecond '
+                'digits, tz-aware, us / ms, timedelta, bool, int8..uint64 at their extremes, float16/32/64 specials '
+                'incl. -0.0 / subnormals / inf / NaN, nullable Int/Float/boolean with NA, str with missing, categorical '
+                'with unused categories, period), compared exactly; read variants pathlib.Path / build_sindex=True / '
+                'geometry= / bounds= selecting nothing; datasets written by Dask\'s own and pandas\' writer; '
+                'load_divisions=True over one / two packed datasets; arrow->array constructors; refusals')
     acc = Acc()
     recording.rep = rep
     import time
@@ -1238,6 +1291,7 @@ def run(rep):
                 packed_divisions(rep, acc, s2, cfg)
         lap('divisions')
         ctor_stream(rep, 1 if tier == 'quick' else 6)
+        refusals(rep, sc)
         lap('ctor')
     finish(rep, acc)
     lap('coq')
@@ -1262,6 +1316,8 @@ def replay(rep, rp):
             packed_divisions(rep, acc, sc, _cfg_from_json(rp['cfg']))
         elif stream == 'ctor':
             ctor_stream(rep, 3)
+        elif stream == 'refusals':
+            refusals(rep, sc)
         else:
             cfg = _cfg_from_json(rp['cfg'])
             cfg['projections'] = [rp.get('columns')]
